@@ -127,6 +127,13 @@ def lean_chars(s: str) -> str:
     return '[' + ', '.join(one(c) for c in s) + ']'
 
 
+def ws(x):
+    """text with all whitespace removed and without the trailing commas rustfmt adds or removes
+    (`a,}` / `a,)` / `a,]`): what textual comparisons are made on"""
+    x = re.sub(r'[ \t\r\n]+', '', x or '')
+    return re.sub(r',([}\])])', r'\1', x)
+
+
 def lean_str(s: str) -> str:
     return '"' + s.replace('\\', '\\\\').replace('"', '\\"').replace('\n', '\\n') + '"'
 
@@ -152,10 +159,10 @@ def gen_tables(repo):
         notes.append('fn get_wallpaper_group not found')
         body = ''
     arm = re.compile(
-        r'WallpaperGroups::(\w+)\s*=>\s*Ok\(\s*WallpaperGroup\s*\{\s*'
+        r'WallpaperGroups::(\w+)\s*=>\s*(?:\{\s*)?Ok\(\s*WallpaperGroup\s*\{\s*'
         r'name:\s*"((?:[^"\\]|\\.)*)"\s*,\s*'
         r'family:\s*CrystalFamily::(\w+)\s*,\s*'
-        r'wyckoff_str:\s*vec!\[((?:\s*"(?:[^"\\]|\\.)*"\s*,?)*)\]\s*,?\s*\}\s*\)\s*,?')
+        r'wyckoff_str:\s*vec!\[((?:\s*"(?:[^"\\]|\\.)*"\s*,?)*)\]\s*,?\s*\}\s*\)\s*(?:\}\s*)?,?')
     pos = 0
     for mm in arm.finditer(body):
         ops = [rust_unescape(x) for x in re.findall(r'"((?:[^"\\]|\\.)*)"', mm.group(4))]
@@ -165,7 +172,7 @@ def gen_tables(repo):
         notes.append('get_wallpaper_group: %d match arms, %d recognised' % (n_arrows, len(entries)))
     # the function must be exactly `match name { arms }`
     rest = arm.sub('', body)
-    if re.sub(r'\s+', '', rest) != 'matchname{}':
+    if ws(rest) != 'matchname{}':
         notes.append('get_wallpaper_group: unrecognised residue: ' + re.sub(r'\s+', ' ', rest)[:120])
     fams = {'Monoclinic', 'Orthorhombic', 'Hexagonal', 'Tetragonal'}
     for e in entries:
@@ -175,15 +182,15 @@ def gen_tables(repo):
 
     # Wallpaper::new must copy name and family from the group
     wnew = fn_body(src, 'new')
-    ok_new = wnew is not None and re.sub(r'\s+', '', wnew) == \
-        'Wallpaper{name:String::from(group.name),family:group.family,}'
+    ok_new = wnew is not None and ws(wnew) == \
+        'Wallpaper{name:String::from(group.name),family:group.family}'
     if not ok_new:
         notes.append('Wallpaper::new: unrecognised body')
 
     # WyckoffSite::new parses every string with Transform2::from_operations, in order
     m2 = re.search(r'impl\s+WyckoffSite\s*\{', src)
     wy = fn_body(src, 'new', m2.end()) if m2 else None
-    wy_ok = wy is not None and re.sub(r'\s+', '', wy).startswith(
+    wy_ok = wy is not None and ws(wy).startswith(
         'letsymmetries=group.wyckoff_str.iter().map(|&a|Transform2::from_operations(a))'
         '.collect::<Result<Vec<_>,_>>()?;Ok(WyckoffSite{letter:\'a\',symmetries,')
     if not wy_ok:
@@ -193,7 +200,7 @@ def gen_tables(repo):
     dof = fn_body(src, 'degrees_of_freedom')
     dof_list = None
     if dof is not None:
-        md = re.fullmatch(r'&\[(.*)\]', re.sub(r'\s+', '', dof))
+        md = re.fullmatch(r'&\[(.*)\]', ws(dof))
         if md:
             dof_list = [x == 'true' for x in md.group(1).split(',') if x]
     if dof_list is None:
@@ -456,7 +463,7 @@ def gen_bounds(repo):
         notes.append('get_degrees_of_freedom: no match on the family')
     else:
         common = basis_pushes(pre, notes, 'cell dof (common)')
-        if re.sub(r'\s+', '', post) != 'basis':
+        if ws(post) != 'basis':
             notes.append('get_degrees_of_freedom: unrecognised tail ' + post.strip()[:60])
         if not re.search(r'match\s+self\.family\b', body):
             notes.append('get_degrees_of_freedom: match is not on self.family')
@@ -526,12 +533,12 @@ def gen_bounds(repo):
 
     # --- Cell2 arithmetic shape (hand-modelled; the translator pins the text)
     def norm(x):
-        return re.sub(r'\s+', '', x or '')
+        return ws(x or '')
     shapes = {
         'a': ('self.length.get_value()', fn_body(cell, 'a')),
         'b': ('self.length.get_value()*self.ratio.get_value()', fn_body(cell, 'b')),
         'area': ('self.angle().sin()*self.a()*self.b()', fn_body(cell, 'area')),
-        'to_cartesian': ('(x*self.a()+y*self.b()*self.angle().cos(),y*self.b()*self.angle().sin(),)', fn_body(cell, 'to_cartesian')),
+        'to_cartesian': ('(x*self.a()+y*self.b()*self.angle().cos(),y*self.b()*self.angle().sin())', fn_body(cell, 'to_cartesian')),
         'to_cartesian_isometry': ('transform.set_position(self.to_cartesian_point(transform.position()))', fn_body(cell, 'to_cartesian_isometry')),
         'to_cartesian_translate': ('letposition=transform.position();transform.set_position(self.to_cartesian_point(Translation2::new(xasf64,yasf64)*position))', fn_body(cell, 'to_cartesian_translate')),
         'periodic_images': ('iproduct!(-shells..=shells,-shells..=shells).filter(move|&(x,y)|!(!zero&&x==0&&y==0)).map(move|(x,y)|self.to_cartesian_translate(transform,x,y))', fn_body(cell, 'periodic_images')),
@@ -550,7 +557,7 @@ def gen_bounds(repo):
     for rel in ('src/state/packed.rs', 'src/state/potential.rs'):
         gb = fn_body(read(repo, rel), 'generate_basis') or ''
         m = re.search(r'site\.get_basis\(\s*([^()]*(?:\([^()]*\))?[^()]*)\)', gb)
-        rots.append(re.sub(r'\s+', '', m.group(1)) if m else '?')
+        rots.append(ws(m.group(1)) if m else '?')
     L.append('/-- the argument of `site.get_basis(…)` in `generate_basis` of PackedState / PotentialState -/')
     L.append('def generateBasisRotSym : List String := [' + ', '.join(lean_str(x) for x in rots) + ']')
     L.append('/-- `OccupiedSite::get_basis` (each guarded by the matching entry of `degrees_of_freedom`) -/')
@@ -600,7 +607,7 @@ def gen_bounds(repo):
     if norm(body) != want:
         changed.append('OccupiedSite::positions')
     tr = norm(fn_body(site, 'transform'))
-    if tr != 'Transform2::new(self.angle.get_value(),(self.x.get_value(),self.y.get_value()),)':
+    if tr != 'Transform2::new(self.angle.get_value(),(self.x.get_value(),self.y.get_value()))':
         changed.append('OccupiedSite::transform')
     L.append('/-- `OccupiedSite::positions`: `(sym * site_transform).periodic(period, offset)` -/')
     L.append('def wrapPeriod : BExpr := ' + per)
@@ -630,7 +637,7 @@ def gen_state(repo):
     ljs = read(repo, 'src/shape/lj_shape.rs')
 
     def norm(x):
-        return re.sub(r'\s+', '', x or '')
+        return ws(x or '')
 
     def bexpr_or(text, default, where, sink=None):
         try:
@@ -773,7 +780,7 @@ def struct_fields(src, name):
     for part in re.finditer(r'(#\[[^\]]*\])|(?:pub(?:\([^)]*\))?\s+)?([a-z_]\w*)\s*:\s*([^,]+?)\s*(?:,|$)', body, re.S):
         if part.group(1):
             if 'serde' in part.group(1):
-                pending.append(re.sub(r'\s+', '', part.group(1)))
+                pending.append(ws(part.group(1)))
         else:
             fields.append((part.group(2), re.sub(r'\s+', ' ', part.group(3).strip()), pending))
             pending = []
@@ -881,7 +888,7 @@ def gen_cli(repo):
         dl = [d.strip() for ds in derives for d in ds.split(',')]
         ser = 'Serialize' in dl
         de = 'Deserialize' in dl
-        cont_attrs = [re.sub(r'\s+', '', a) for a in re.findall(r'#\[serde[^\]]*\]', attrs or '')]
+        cont_attrs = [ws(a) for a in re.findall(r'#\[serde[^\]]*\]', attrs or '')]
         fl = ', '.join('(%s, %s, [%s])' % (lean_str(f), lean_str(t), ', '.join(lean_str(a) for a in at)) for (f, t, at) in fields)
         rows.append('  (%s, %s, %s, [%s], [%s])' % (lean_str(name), 'true' if ser else 'false', 'true' if de else 'false',
                                                   ', '.join(lean_str(a) for a in cont_attrs), fl))
@@ -894,12 +901,12 @@ def gen_cli(repo):
     sv_ok = False
     if sv_ser:
         b = basis[sv_ser.end():match_brace(basis, sv_ser.end() - 1)]
-        sv_ok = re.sub(r'\s+', '', b).endswith('{serializer.serialize_f64(self.get_value())}')
+        sv_ok = ws(b).endswith('{serializer.serialize_f64(self.get_value())}')
     sv_de = re.search(r'impl<\'de>\s*Deserialize<\'de>\s*for\s+SharedValue\s*\{', basis)
     sv_de_ok = False
     if sv_de:
         b = basis[sv_de.end():match_brace(basis, sv_de.end() - 1)]
-        sv_de_ok = 'deserialize_f64(F64Visitor)' in re.sub(r'\s+', '', b) and '.map(SharedValue::new)' in re.sub(r'\s+', '', b)
+        sv_de_ok = 'deserialize_f64(F64Visitor)' in ws(b) and '.map(SharedValue::new)' in ws(b)
     vis = re.search(r'fn\s+visit_f64<E>\(self,\s*value:\s*f64\)[^{]*\{\s*Ok\(value\)\s*\}', basis)
     L.append('/-- `SharedValue` (de)serialises as a bare f64 holding its value -/')
     L.append('def sharedValueIsBareF64 : Bool := ' + ('true' if (sv_ok and sv_de_ok and vis) else 'false'))
@@ -916,7 +923,7 @@ def gen_cli(repo):
         m = re.search(r'impl\s+Clone\s+for\s+' + name + r'\s*\{', src)
         ok = False
         if m:
-            b = re.sub(r'\s+', '', src[m.end():match_brace(src, m.end() - 1)])
+            b = ws(src[m.end():match_brace(src, m.end() - 1)])
             ok = all(('%s:SharedValue::new(self.%s.get_value())' % (f, f)) in b for f in fields)
         derive_clone = re.search(r'derive\([^)]*\bClone\b[^)]*\)\]\s*pub\s+struct\s+' + name + r'\b', src) is not None
         clone_ok.append((name, ok and not derive_clone))
@@ -937,10 +944,10 @@ def gen_cli(repo):
     inv = sorted(inv)
     L.append('/-- every `static`, `thread_local!`, shared-ownership / interior-mutability type and `unsafe` in non-test code -/')
     L.append('def sharedStateInventory : List String := [' + ', '.join(lean_str(x) for x in inv) + ']')
-    seedpath = re.sub(r'\s+', '', fn_body(opt, 'build') or '')
+    seedpath = ws(fn_body(opt, 'build') or '')
     L.append('/-- with an explicit seed `build` never consults an entropy source -/')
-    L.append('def seedOnly : Bool := ' + ('true' if 'letseed=matchself.seed{None=>Pcg64Mcg::from_entropy().gen(),Some(x)=>x,};' in seedpath else 'false'))
-    rngline = re.sub(r'\s+', '', fn_body(opt, 'optimise_state') or '')
+    L.append('def seedOnly : Bool := ' + ('true' if 'letseed=matchself.seed{None=>Pcg64Mcg::from_entropy().gen(),Some(x)=>x};' in seedpath else 'false'))
+    rngline = ws(fn_body(opt, 'optimise_state') or '')
     L.append('def rngFromSeed : Bool := ' + ('true' if 'letmutrng=Pcg64Mcg::seed_from_u64(self.seed);' in rngline else 'false'))
     # ---- the total order on states by score (what `.max()` uses)
     order_ok = []
@@ -951,7 +958,7 @@ def gen_cli(repo):
             if not m:
                 return None
             blk = src[m.end():match_brace(src, m.end() - 1)]
-            return re.sub(r'\s+', '', fn_body(blk, fn) or '')
+            return ws(fn_body(blk, fn) or '')
         pc = body_of('PartialOrd', 'partial_cmp')
         oc = body_of('Ord', 'cmp')
         # the bodies themselves are regenerated by rs2lean (Generated/FnsPacked, FnsPotential) and proved to be
